@@ -251,4 +251,65 @@ Proof.
     discriminate.
 Qed.
 
+
+(* ---------- out= on discretized elements (element, tensor or ndarray) ---------- *)
+Lemma to_tensor_buf (o : operand) : op_buf (to_tensor o) = op_buf o.
+Proof. destruct o; reflexivity. Qed.
+Lemma to_tensor_valid (o : operand) : disc_valid_out (Some o) = true -> tens_valid_out (Some (to_tensor o)) = true.
+Proof. destruct o; cbn; auto. Qed.
+
+(* The given container itself is returned (the element, not its tensor), and
+   the final store is the one NumPy leaves when writing into its buffer. *)
+Lemma disc_out_sound (NP : npsem) (st : store) ds m ins kw rins o id rets st' :
+  arity1 NP -> is_at m = false -> kw_dtype kw = None ->
+  disc_valid_out (Some o) = true -> op_buf o = Some id ->
+  map_opt tens_unwrap (map to_tensor ins) = Some rins ->
+  disc_ufunc NP st ds 1 m ins kw [Some o] = Ok (rets, st') ->
+  rets = [o]
+  /\ raw_ufunc cast NP st m (kw_drop_keepdims kw) rins [Some id] = Ok ([RRBuf id], st').
+Proof.
+  intros Ha Hat Hd Hv Hb Hu Hdu. unfold Model.disc_ufunc in Hdu.
+  assert (Hlen : len_ok m 1 1 = true) by (unfold len_ok; destruct (is_call m); reflexivity).
+  cbn [length] in Hdu. rewrite Hlen in Hdu. cbn [negb forallb] in Hdu. rewrite Hv in Hdu.
+  cbn [andb negb map option_map] in Hdu.
+  assert (Hkd : kw_dtype (kw_drop_keepdims kw) = None) by exact Hd.
+  pose proof (to_tensor_valid o Hv) as Hvt.
+  assert (Hbt : op_buf (to_tensor o) = Some id) by (rewrite to_tensor_buf; exact Hb).
+  destruct m; try discriminate; cbn [is_at] in Hdu.
+  - (* __call__ *)
+    cbn [Nat.eqb orb negb] in Hdu. unfold pad_none in Hdu. cbn [length Nat.sub repeat app] in Hdu.
+    match type of Hdu with
+      match Model.tens_ufunc ?c ?v ?np ?s ?sp ?n ?mm ?i ?k ?oo with _ => _ end = _ =>
+        destruct (Model.tens_ufunc c v np s sp n mm i k oo) as [[rs st2]|] eqn:Et; try discriminate
+    end.
+    eapply (tens_out_sound cast V) in Et as [-> Hr]; eauto.
+    cbn in Hdu. inversion Hdu; subst. split; [reflexivity | exact Hr].
+  - (* reduce *)
+    destruct (kw_keepdims kw); try discriminate.
+    match type of Hdu with
+      match Model.tens_ufunc ?c ?v ?np ?s ?sp ?n ?mm ?i ?k ?oo with _ => _ end = _ =>
+        destruct (Model.tens_ufunc c v np s sp n mm i k oo) as [[rs st2]|] eqn:Et; try discriminate
+    end.
+    eapply (tens_out_sound cast V) in Et as [-> Hr]; eauto.
+    destruct (to_tensor o) eqn:Eo; cbn in Hvt; try discriminate Hvt;
+      cbn in Hdu; inversion Hdu; subst; (split; [reflexivity | exact Hr]).
+  - (* accumulate *)
+    match type of Hdu with
+      match Model.tens_ufunc ?c ?v ?np ?s ?sp ?n ?mm ?i ?k ?oo with _ => _ end = _ =>
+        destruct (Model.tens_ufunc c v np s sp n mm i k oo) as [[rs st2]|] eqn:Et; try discriminate
+    end.
+    eapply (tens_out_sound cast V) in Et as [-> Hr]; eauto.
+    destruct (to_tensor o) eqn:Eo; cbn in Hvt; try discriminate Hvt;
+      cbn in Hdu; inversion Hdu; subst; (split; [reflexivity | exact Hr]).
+  - (* outer *)
+    destruct (negb (forallb is_disc ins)); try discriminate.
+    match type of Hdu with
+      match Model.tens_ufunc ?c ?v ?np ?s ?sp ?n ?mm ?i ?k ?oo with _ => _ end = _ =>
+        destruct (Model.tens_ufunc c v np s sp n mm i k oo) as [[rs st2]|] eqn:Et; try discriminate
+    end.
+    eapply (tens_out_sound cast V) in Et as [-> Hr]; eauto.
+    destruct (to_tensor o) eqn:Eo; cbn in Hvt; try discriminate Hvt;
+      cbn in Hdu; inversion Hdu; subst; (split; [reflexivity | exact Hr]).
+Qed.
+
 End ProofsDisc.
